@@ -13,6 +13,33 @@ CLAIMS = {
              "operator depth <=2, integer-valued numerics with NaN; strings/categoricals/datetimes, quantile-based planning, disk/p2p shuffles outside.",
         design="§4 C01",
     ),
+    "C03": dict(
+        category="translation_validation", engine="P+SMT",
+        technique="propositional z3 equivalence of the real predicate rewriter's input/output trees; z3 equivalence of real optimised vs unoptimised plans with a filter above every crossable operator",
+        text="(1) All And/Or trees up to 4 (quick) / 5 (thorough) leaves over 4 atoms are pushed through the real rewrite_filters; z3 proves in<=>out for all valuations. "
+             "(2) A filter above every operator it may cross (projections, elementwise, assign, rename, astype, to_frame, reset_index incl. predicates on the former index, shuffle, "
+             "repartition, set_index(divisions), dropna/drop_duplicates, merges of every how x predicate side x suffix collision x other consumers) is proved to keep exactly the "
+             "rows of the unoptimised plan, nulls included.",
+        note="Trusted: symdf leaf models (validated per program on seeded tables). Bounds: <=5 rows/input, <=3 partitions. Reader-side filters: see C18.",
+        design="§4 C03",
+    ),
+    "C04": dict(
+        category="translation_validation", engine="P",
+        technique="z3 equivalence of real optimised vs unoptimised plans for every column selection; widening obligation with free symbolic extra columns",
+        text="(a) For every operator followed by ordered / repeated / scalar / list selections and implicit-key consumers the optimised plans of three stages are proved equal to the "
+             "unoptimised plan including labels and their order (a task reading a missing or duplicated column is a structural failure). (b) Widening: the same query over sources "
+             "carrying two extra never-mentioned columns with free symbolic cells is proved to return the same result.",
+        note="Trusted: symdf leaf models. Bounds: <=5 rows/input, <=3 partitions, <=3 selected columns, depth <=1 (quick) / 2 (thorough) before the selection.",
+        design="§4 C04",
+    ),
+    "C07": dict(
+        category="model_checking", engine="P",
+        technique="symbolic execution of real plans; labels/names/container kind of every partition compared with the node's _meta (data-independent, path explorer for data-dependent branches)",
+        text="For the root of every optimiser stage and every sub-collection of the logical query, every symbolically computed partition carries the container kind, column labels "
+             "and order, series and index names its _meta declares, and no stage changes the declared schema of the query. One symbolic run covers all table contents within the row bound.",
+        note="dtype kinds are outside the claim (pandas C promotion rules cannot be encoded); internal lowered nodes are not collections and are not checked.",
+        design="§4 C07",
+    ),
     "C14": dict(
         category="translation_validation", engine="P",
         technique="symbolic execution of fused vs unfused real task graphs; z3 decides per-partition sequence equality",
